@@ -31,6 +31,23 @@ Theorem C09_declines_without_fields : forall ver c prev replen obs b x,
   report234 ver c prev replen obs = Ok (b, x) -> (b = false /\ x = None) \/ (b = true /\ exists rf, x = Some rf).
 Proof. exact v234_decline_or_report. Qed.
 
+(* "the plugin declines to report - without error - when the new end would precede that start": previous report ending at pts,
+   consensus timestamp below pts + 1, and nothing else wrong with the round (enough parsable observations, prices / market status
+   agreed, no 32-bit overflow of start or expiry): the answer is (false, nil), never an error.  The evaluator's
+   CasesMercReport.must_decline is this hypothesis list as a boolean, judged on the implementation's own answer. *)
+Theorem C09_v234_must_decline : forall ver c prev replen obs pts ts,
+  prev = Some (Ok pts) -> 0 <= pts < max_uint32 ->
+  (mc_f c + 1 <= length (omap (parse234 ver) obs))%nat ->
+  consensus_timestamp (map p_ts (omap (parse234 ver) obs)) = Ok ts -> ts < pts + 1 ->
+  (max_uint32 <? ts + mc_window c) = false ->
+  is_ok (consensus_price (map p_bm (omap (parse234 ver) obs)) (mc_f c)) = true ->
+  (ver = 3 -> is_ok (consensus_price (map p_bid (omap (parse234 ver) obs)) (mc_f c)) = true /\
+              is_ok (consensus_price (map p_ask (omap (parse234 ver) obs)) (mc_f c)) = true) ->
+  (ver = 4 -> is_ok (market_status (map p_status (omap (parse234 ver) obs)) (mc_f c)) = true) ->
+  report234 ver c prev replen obs = Ok (false, None).
+Proof. exact v234_must_decline. Qed.
+Print Assumptions C09_v234_must_decline.
+
 (* the pre-repair arithmetic wrapped: previous timestamp 2^32-1 gave validFrom 0 (B2); MaxInt64 + 1 as agreed
    max-finalized value gave validFrom 0 (B8) — witnesses of the modular arithmetic *)
 Example C09_prefix_wrap_refuted : (max_uint32 + 1) mod 2 ^ 32 = 0 /\ wrap64 (2 ^ 63 - 1 + 1) mod 2 ^ 32 = 0.
